@@ -41,7 +41,7 @@ Proof. vm_compute. reflexivity. Qed.
 
 Lemma wire_constants :
   grpc_content_type = s2z "application/grpc" /\ proto_subtype = s2z "proto" /\
-  content_type_value = s2z "application/grpc+proto" /\
+  content_type_value proto_subtype = s2z "application/grpc+proto" /\
   abort_header_names = [s2z ":status"; s2z "grpc-status"; s2z "grpc-message"].
 Proof. repeat split; reflexivity. Qed.
 
@@ -379,19 +379,19 @@ Lemma abort_out e h gs m :
   abort (hst (init_state e)) h gs m = FHeaders h false gs m true :: (if e_eof e then [] else [FRst]).
 Proof. unfold init_state, abort. destruct (e_eof e); reflexivity. Qed.
 
-Lemma first_abort_in known hs tbl i0 i en :
-  first_abort known hs tbl i0 = Some (i, en) -> In en tbl.
+Lemma first_abort_in cs known hs tbl i0 i en :
+  first_abort cs known hs tbl i0 = Some (i, en) -> In en tbl.
 Proof.
   revert i0. induction tbl as [|x r IH]; intros i0 H; cbn in H; [discriminate|].
-  destruct (guard_fires known hs (fst (fst (fst x)))).
+  destruct (guard_fires cs known hs (fst (fst (fst x)))).
   - inversion H; subst. left. reflexivity.
   - right. eapply IH; eauto.
 Qed.
 
-Lemma validate_abort_error known hs i h gs m :
-  validate known hs = VAbort i h gs m -> error_response h gs = true.
+Lemma validate_abort_error cs known hs i h gs m :
+  validate cs known hs = VAbort i h gs m -> error_response h gs = true.
 Proof.
-  unfold validate. destruct (first_abort known hs abort_table 0) as [[j [[[g h'] gs'] m']]|] eqn:E; [|discriminate].
+  unfold validate. destruct (first_abort cs known hs abort_table 0) as [[j [[[g h'] gs'] m']]|] eqn:E; [|discriminate].
   intros H. inversion H; subst.
   apply first_abort_in in E.
   pose proof abort_entries_are_errors as A. rewrite forallb_forall in A. apply (A _ E).
@@ -412,7 +412,7 @@ Theorem well_formed_always known hs e p :
   well_formed (r_out (run_call known hs e p)) = true.
 Proof.
   unfold run_call, well_formed.
-  destruct (validate known hs) as [i h gs m|t] eqn:Ev.
+  destruct (validate (e_codec e) known hs) as [i h gs m|t] eqn:Ev.
   - cbn [r_out]. rewrite abort_out.
     apply validate_abort_error in Ev. apply error_response_terminal in Ev.
     destruct (e_eof e); cbn; rewrite Ev; reflexivity.
@@ -449,7 +449,7 @@ Theorem exactly_one_terminal_partial known hs e p :
   accepted (r_out r) = true.
 Proof.
   cbn zeta. unfold run_call, accepted.
-  destruct (validate known hs) as [i h gs m|t] eqn:Ev.
+  destruct (validate (e_codec e) known hs) as [i h gs m|t] eqn:Ev.
   - intros _ _ _. cbn [r_out]. rewrite abort_out.
     apply validate_abort_error in Ev. apply error_response_terminal in Ev.
     destruct (e_eof e); cbn; rewrite Ev; reflexivity.
@@ -760,7 +760,7 @@ Qed.
 
 (* the shape of every accepted call whose deadline has not expired on arrival *)
 Lemma run_call_accept known hs e p t :
-  validate known hs = VAccept t -> t <> TExpired ->
+  validate (e_codec e) known hs = VAccept t -> t <> TExpired ->
   let r := run_call known hs e p in
   exists out1 out2,
     r_out r = out1 ++ out2 /\ r_end r <> KNotRun /\
@@ -819,7 +819,7 @@ Lemma KHang_dec (k : endkind) : {k = KHang} + {k <> KHang}.
 Proof. destruct k; (left; reflexivity) || (right; discriminate). Qed.
 
 Lemma accept_summary known hs e p t :
-  validate known hs = VAccept t -> t <> TExpired ->
+  validate (e_codec e) known hs = VAccept t -> t <> TExpired ->
   let r := run_call known hs e p in
   r_end r <> KNotRun /\
   exists out1,
@@ -856,10 +856,10 @@ Lemma abort_entries_not_ok :
              match gs with Some g => negb (g =? status_ok) | None => true end) abort_table = true.
 Proof. vm_compute. reflexivity. Qed.
 
-Lemma validate_abort_not_ok known hs i h gs m :
-  validate known hs = VAbort i h gs m -> gs <> Some status_ok.
+Lemma validate_abort_not_ok cs known hs i h gs m :
+  validate cs known hs = VAbort i h gs m -> gs <> Some status_ok.
 Proof.
-  unfold validate. destruct (first_abort known hs abort_table 0) as [[j [[[g h'] gs'] m']]|] eqn:E; [|discriminate].
+  unfold validate. destruct (first_abort cs known hs abort_table 0) as [[j [[[g h'] gs'] m']]|] eqn:E; [|discriminate].
   intros H. inversion H; subst. apply first_abort_in in E.
   pose proof abort_entries_not_ok as A. rewrite forallb_forall in A. specialize (A _ E). cbn in A.
   intros ->. rewrite Z.eqb_refl in A. discriminate.
@@ -867,7 +867,7 @@ Qed.
 
 (* the response to a request whose deadline has expired on arrival *)
 Lemma expired_out known hs e p :
-  validate known hs = VAccept TExpired ->
+  validate (e_codec e) known hs = VAccept TExpired ->
   let r := run_call known hs e p in
   r_out r = FHeaders 200 true (Some 4) None true :: (if e_eof e then [] else [FRst]) /\
   r_end r = KNotRun /\ r_results r = [].
@@ -887,8 +887,8 @@ Theorem ok_only_if_normal known hs e p m :
   (server_streaming (e_card e) = false -> count_data (r_out r) = 1%nat).
 Proof.
   cbn zeta. intros Hf.
-  destruct (validate known hs) as [i h gs am|t] eqn:Ev.
-  - exfalso. pose proof (validate_abort_not_ok _ _ _ _ _ _ Ev) as Hn.
+  destruct (validate (e_codec e) known hs) as [i h gs am|t] eqn:Ev.
+  - exfalso. pose proof (validate_abort_not_ok _ _ _ _ _ _ _ Ev) as Hn.
     unfold run_call in Hf. rewrite Ev in Hf. cbn [r_out] in Hf. rewrite abort_out in Hf.
     destruct gs as [g|]; destruct (e_eof e); cbn in Hf; try discriminate; inversion Hf; subst; congruence.
   - destruct (tclass_dec t TExpired) as [->|Hne].
@@ -926,7 +926,7 @@ Qed.
 (* (2b) the status added at exit, in full: for every accepted call whose handler came to an end without
    having sent trailers or RST_STREAM itself and whose stream the client did not reset *)
 Theorem status_at_exit known hs e p t :
-  validate known hs = VAccept t -> t <> TExpired ->
+  validate (e_codec e) known hs = VAccept t -> t <> TExpired ->
   let r := run_call known hs e p in
   r_end r <> KHang -> reset_kind (r_end r) = false ->
   trail_done (r_pre r) = false -> cancel_done (r_pre r) = false ->
@@ -939,7 +939,7 @@ Qed.
 
 (* ... spelled out per ending *)
 Theorem return_status known hs e p t :
-  validate known hs = VAccept t -> t <> TExpired ->
+  validate (e_codec e) known hs = VAccept t -> t <> TExpired ->
   let r := run_call known hs e p in
   returned_normally (r_end r) = true -> trail_done (r_pre r) = false -> cancel_done (r_pre r) = false ->
   final_status (r_out r) =
@@ -956,7 +956,7 @@ Proof.
 Qed.
 
 Theorem grpc_error_status known hs e p t st m :
-  validate known hs = VAccept t -> t <> TExpired ->
+  validate (e_codec e) known hs = VAccept t -> t <> TExpired ->
   let r := run_call known hs e p in
   exit_exn (r_end r) = Some (EGRPC st m) -> reset_kind (r_end r) = false ->
   trail_done (r_pre r) = false -> cancel_done (r_pre r) = false ->
@@ -975,7 +975,7 @@ Qed.
 (* repaired defect D42: GRPCError(Status.OK) from a unary-reply handler that sent no message is answered like
    any other exception -- UNKNOWN "Internal Server Error", exactly one terminal *)
 Theorem grpc_ok_without_message_status known hs e p t m :
-  validate known hs = VAccept t -> t <> TExpired ->
+  validate (e_codec e) known hs = VAccept t -> t <> TExpired ->
   let r := run_call known hs e p in
   exit_exn (r_end r) = Some (EGRPC status_ok m) -> reset_kind (r_end r) = false ->
   trail_done (r_pre r) = false -> cancel_done (r_pre r) = false ->
@@ -993,7 +993,7 @@ Proof.
 Qed.
 
 Theorem exception_status known hs e p t :
-  validate known hs = VAccept t -> t <> TExpired ->
+  validate (e_codec e) known hs = VAccept t -> t <> TExpired ->
   let r := run_call known hs e p in
   exit_exn (r_end r) = Some EExc -> reset_kind (r_end r) = false ->
   trail_done (r_pre r) = false -> cancel_done (r_pre r) = false ->
@@ -1011,7 +1011,7 @@ Definition deadline_kind (k : endkind) : bool :=
 (* DEADLINE_EXCEEDED whether the handler honours the cancellation or swallows it and then returns or raises
    anything at all (even a BaseException: Wrapper.__exit__ replaces it) *)
 Theorem deadline_status known hs e p t :
-  validate known hs = VAccept t -> t <> TExpired ->
+  validate (e_codec e) known hs = VAccept t -> t <> TExpired ->
   let r := run_call known hs e p in
   deadline_kind (r_end r) = true -> trail_done (r_pre r) = false -> cancel_done (r_pre r) = false ->
   final_status (r_out r) = Some (4, None) /\ accepted (r_out r) = true.
@@ -1031,7 +1031,7 @@ Qed.
 
 (* (2c) trailers the handler sent itself stand, whatever it does or raises afterwards *)
 Theorem explicit_status_stands known hs e p t :
-  validate known hs = VAccept t -> t <> TExpired ->
+  validate (e_codec e) known hs = VAccept t -> t <> TExpired ->
   let r := run_call known hs e p in
   trail_done (r_pre r) = true ->
   exists st m, In (SendTrailing st m false) (p_ops p) /\ final_status (r_out r) = Some (st, m).
@@ -1046,7 +1046,7 @@ Theorem unary_at_most_one_message known hs e p :
   server_streaming (e_card e) = false -> (count_data (r_out (run_call known hs e p)) <= 1)%nat.
 Proof.
   intros Hu.
-  destruct (validate known hs) as [i h gs am|t] eqn:Ev.
+  destruct (validate (e_codec e) known hs) as [i h gs am|t] eqn:Ev.
   - unfold run_call. rewrite Ev. cbn [r_out]. rewrite abort_out. destruct (e_eof e); cbn; lia.
   - destruct (tclass_dec t TExpired) as [->|Hne].
     { destruct (expired_out known hs e p Ev) as (Ho & _). rewrite Ho. destruct (e_eof e); cbn; lia. }
@@ -1069,14 +1069,14 @@ Qed.
 (** * (3) requests that are not acceptable gRPC are answered with an error, never left unanswered *)
 
 Theorem unacceptable_rejected known hs e p i h gs m :
-  validate known hs = VAbort i h gs m ->
+  validate (e_codec e) known hs = VAbort i h gs m ->
   let r := run_call known hs e p in
   r_out r = FHeaders h false gs m true :: (if e_eof e then [] else [FRst]) /\
   accepted (r_out r) = true /\ error_response h gs = true /\ count_data (r_out r) = 0%nat /\
   r_results r = [] /\ r_end r = KNotRun.
 Proof.
   intros Hv. cbn zeta. unfold run_call. rewrite Hv. cbn [r_out r_results r_end]. rewrite abort_out.
-  pose proof (validate_abort_error _ _ _ _ _ _ Hv) as He.
+  pose proof (validate_abort_error _ _ _ _ _ _ _ Hv) as He.
   pose proof (error_response_terminal _ _ He) as Ht.
   repeat split; auto.
   - unfold accepted. destruct (e_eof e); cbn; rewrite Ht; reflexivity.
@@ -1091,12 +1091,12 @@ Definition te_msg : list Z :=
   [82; 101; 113; 117; 105; 114; 101; 100; 32; 34; 116; 101; 58; 32; 116; 114; 97; 105; 108; 101; 114;
    115; 34; 32; 104; 101; 97; 100; 101; 114; 32; 105; 115; 32; 109; 105; 115; 115; 105; 110; 103].
 
-Definition validate_spec (known : list (list Z)) (hs : list header) : verdict :=
+Definition validate_spec (cs : list Z) (known : list (list Z)) (hs : list header) : verdict :=
   if negb (opt_is (hget (s2z ":method") hs) (s2z "POST")) then VAbort 0 405 None None
   else match hget (s2z "content-type") hs with
   | None => VAbort 1 415 (Some 2) (Some (s2z "Missing content-type header"))
   | Some v =>
-    if negb (content_type_ok v) then VAbort 2 415 (Some 2) (Some (s2z "Unacceptable content-type header"))
+    if negb (content_type_ok cs v) then VAbort 2 415 (Some 2) (Some (s2z "Unacceptable content-type header"))
     else if negb (opt_is (hget (s2z "te") hs) (s2z "trailers")) then VAbort 3 400 (Some 2) (Some te_msg)
     else if negb (match hget (s2z ":path") hs with Some p => mem_str p known | None => false end)
          then VAbort 4 200 (Some 12) (Some (s2z "Method not found"))
@@ -1107,7 +1107,7 @@ Definition validate_spec (known : list (list Z)) (hs : list header) : verdict :=
          end
   end.
 
-Theorem validate_is_spec known hs : validate known hs = validate_spec known hs.
+Theorem validate_is_spec cs known hs : validate cs known hs = validate_spec cs known hs.
 Proof.
   unfold validate, validate_spec. rewrite abort_table_is. cbn [first_abort fst guard_fires].
   change (s2z ":path") with k_path.
@@ -1119,17 +1119,17 @@ Proof.
   unfold opt_is.
   destruct (hget (s2z ":method") hs) as [x|]; [destruct (zlist_eqb x (s2z "POST"))|]; cbn [negb]; try reflexivity.
   destruct (hget (s2z "content-type") hs) as [v|]; [|reflexivity].
-  destruct (content_type_ok v); cbn [negb]; [|reflexivity].
+  destruct (content_type_ok cs v); cbn [negb]; [|reflexivity].
   destruct (hget (s2z "te") hs) as [y|]; [destruct (zlist_eqb y (s2z "trailers"))|]; cbn [negb]; try reflexivity.
   destruct (hget k_path hs) as [q|]; [destruct (mem_str q known)|]; cbn [negb]; try reflexivity.
   destruct (timeout_class hs); try reflexivity; destruct (metadata_ok hs); reflexivity.
 Qed.
 
 (* acceptance means every check passed *)
-Theorem accepted_request_is_grpc known hs t :
-  validate known hs = VAccept t ->
+Theorem accepted_request_is_grpc cs known hs t :
+  validate cs known hs = VAccept t ->
   opt_is (hget (s2z ":method") hs) (s2z "POST") = true /\
-  (exists v, hget (s2z "content-type") hs = Some v /\ content_type_ok v = true) /\
+  (exists v, hget (s2z "content-type") hs = Some v /\ content_type_ok cs v = true) /\
   opt_is (hget (s2z "te") hs) (s2z "trailers") = true /\
   (exists q, hget (s2z ":path") hs = Some q /\ mem_str q known = true) /\
   timeout_class hs = t /\ t <> TInvalid /\ metadata_ok hs = true.
@@ -1137,7 +1137,7 @@ Proof.
   rewrite validate_is_spec. unfold validate_spec.
   destruct (opt_is (hget (s2z ":method") hs) (s2z "POST")); cbn [negb]; [|discriminate].
   destruct (hget (s2z "content-type") hs) as [v|]; [|discriminate].
-  destruct (content_type_ok v) eqn:Ect; cbn [negb]; [|discriminate].
+  destruct (content_type_ok cs v) eqn:Ect; cbn [negb]; [|discriminate].
   destruct (opt_is (hget (s2z "te") hs) (s2z "trailers")); cbn [negb]; [|discriminate].
   destruct (hget (s2z ":path") hs) as [q|]; [|discriminate].
   destruct (mem_str q known) eqn:Eq; cbn [negb]; [|discriminate].
@@ -1150,7 +1150,7 @@ Qed.
    timeout) and StreamTerminatedError / ProtocolError it lets escape -- are UNKNOWN whatever deadline the request
    carries, as long as that deadline has not fired (then Wrapper.__exit__ has replaced them: deadline_status) *)
 Theorem own_exception_is_unknown known hs e p t k :
-  validate known hs = VAccept t -> t <> TExpired ->
+  validate (e_codec e) known hs = VAccept t -> t <> TExpired ->
   let r := run_call known hs e p in
   (r_end r = KFin (RaiseException k) \/ r_end r = KSwallowed CClose (RaiseException k)) ->
   trail_done (r_pre r) = false -> cancel_done (r_pre r) = false ->
@@ -1205,19 +1205,43 @@ Proof.
       destruct (IH _ _ eq_refl) as [->|[-> ->]]; [left|right]; auto.
 Qed.
 
-(* exactly three content-type strings are acceptable to a server with the proto codec *)
-Theorem content_type_partition v :
-  content_type_ok v = true <->
-  v = s2z "application/grpc" \/ v = s2z "application/grpc+" \/ v = s2z "application/grpc+proto".
+(* which content-type strings a server whose codec has content subtype cs accepts: `application/grpc+cs`, and --
+   only when cs is the protocol default 'proto' -- the bare `application/grpc` (and `application/grpc+`) *)
+Theorem content_type_partition cs v :
+  cs <> [] ->
+  (content_type_ok cs v = true <->
+   v = content_type_value cs \/
+   (cs = proto_subtype /\ (v = s2z "application/grpc" \/ v = s2z "application/grpc+"))).
 Proof.
-  split.
+  intros Hcs. split.
   - unfold content_type_ok. destruct (partition_plus v) as [a b] eqn:Ep. intros H.
     apply andb_true_iff in H as [Ha Hb]. apply zlist_eqb_eq in Ha. subst a.
-    apply partition_plus_spec in Ep. destruct b as [|c b].
-    + destruct Ep as [->|[-> _]]; [right; left | left]; reflexivity.
-    + apply zlist_eqb_eq in Hb. unfold codec_subtype in Hb. rewrite Hb in Ep.
-      destruct Ep as [->|[_ E]]; [right; right; reflexivity | discriminate].
-  - intros [->|[->| ->]]; reflexivity.
+    apply partition_plus_spec in Ep. apply zlist_eqb_eq in Hb. destruct b as [|c b].
+    + right. split; [symmetry; exact Hb|]. destruct Ep as [->|[-> _]]; [right | left]; reflexivity.
+    + left. subst cs. destruct Ep as [->|[_ E]]; [reflexivity | discriminate].
+  - intros [->|[-> [->| ->]]]; try reflexivity.
+    unfold content_type_ok, content_type_value. cbn [app]. cbn -[zlist_eqb].
+    destruct cs as [|c r]; [congruence|].
+    assert (E : zlist_eqb (c :: r) (c :: r) = true) by (apply zlist_eqb_eq; reflexivity).
+    rewrite E. reflexivity.
+Qed.
+
+(* in particular the proto codec: exactly three strings; any other codec does NOT accept the bare form *)
+Corollary content_type_partition_proto v :
+  content_type_ok proto_subtype v = true <->
+  v = s2z "application/grpc" \/ v = s2z "application/grpc+" \/ v = s2z "application/grpc+proto".
+Proof.
+  rewrite content_type_partition by discriminate. split.
+  - intros [->|[_ [->| ->]]]; auto.
+  - intros [->|[->| ->]]; [right; split; auto | right; split; auto | left; reflexivity].
+Qed.
+
+Corollary bare_content_type_needs_proto cs :
+  cs <> [] -> cs <> proto_subtype -> content_type_ok cs (s2z "application/grpc") = false.
+Proof.
+  intros H1 H2. destruct (content_type_ok cs (s2z "application/grpc")) eqn:E; [|reflexivity].
+  apply content_type_partition in E; [|exact H1]. destruct E as [E|[E _]]; [|congruence].
+  exfalso. unfold content_type_value in E. apply (f_equal (@length Z)) in E. rewrite !app_length in E. cbn in E. lia.
 Qed.
 
 (* dict(headers): a later duplicate wins *)
@@ -1281,16 +1305,22 @@ Definition good_request : list header :=
   [ (s2z ":method", s2z "POST"); (s2z ":scheme", s2z "http"); (s2z ":path", s2z "/v.S/M");
     (s2z ":authority", s2z "x"); (s2z "te", s2z "trailers"); (s2z "content-type", s2z "application/grpc") ].
 Definition known_paths : list (list Z) := [s2z "/v.S/M"].
-Definition std_env (c : card) (x : extk) : env := mkE c 1 false true x None false.
+Definition std_env (c : card) (x : extk) : env := mkE c 1 false true x None proto_subtype false.
 
 (* What the repository does on the probe programs of Gen/FactsC03Probes.v (regenerated from its BEHAVIOUR on every
    run: precondition refusals of the four sending calls, HEADERS / trailers vs trailers-only / RST_STREAM after
    non-OK while closable, h2 closing a half-closed stream after a refused send, part-way failures, the exit
    path for return / Exception / GRPCError / BaseException, x {UU, SS} x END_STREAM received or not) is what the
    model computes. *)
-Definition golden_run (g : card * bool * list op * fin0) : list frame * list opres :=
-  let '(c, eof, ops, f) := g in
-  let r := run_call known_paths good_request (mkE c 1 false eof ENone None false) (mkP ops (Fin f) Honour) in
+Definition request_with (ct : list Z) : list header :=
+  [ (s2z ":method", s2z "POST"); (s2z ":scheme", s2z "http"); (s2z ":path", s2z "/v.S/M");
+    (s2z ":authority", s2z "x"); (s2z "te", s2z "trailers"); (s2z "content-type", ct) ].
+
+(* a probe: (cardinality, END_STREAM received, content subtype of the server's codec, content-type of the
+   request, program, ending) *)
+Definition golden_run (g : card * bool * list Z * list Z * list op * fin0) : list frame * list opres :=
+  let '(c, eof, cs, ct, ops, f) := g in
+  let r := run_call known_paths (request_with ct) (mkE c 1 false eof ENone None cs false) (mkP ops (Fin f) Honour) in
   (r_out r, r_results r).
 
 Lemma golden_probes_agree : map golden_run golden_in = golden_out.
